@@ -15,11 +15,11 @@ Verdict per obligation: holds (every path explored, every check unsat),
 counterexample (model, to be replayed without proxies), or inconclusive
 (solver unknown / budget exhausted).
 """
-import time, math, itertools, fractions, numbers
+import time, math, itertools, fractions, numbers, re
 import z3
 
 __all__ = ['Explorer','SymInt','SymReal','SymBool','SymFP','SymBV','Inconclusive','Violation',
-           'ConcreteSym','unwrap','is_sym','discover_prefixes','And','Or','Not','Implies','ite']
+           'ConcreteSym','unwrap','is_sym','discover_prefixes','collect','to_smt2','And','Or','Not','Implies','ite']
 
 class Inconclusive(Exception):
     pass
@@ -501,11 +501,13 @@ class Explorer:
         self.vars = {}            # name -> z3 const (ordered)
         self.choices = {}         # name -> chosen python value (current path)
         self.on_violation = None
-        self.forced = []; self.fpos = 0; self.discover = False
+        self.forced = []; self.fpos = 0; self.discover = False; self.collecting = False
         self.model = None
 
     # -- solver plumbing ---------------------------------------------------------------
     def _check(self, *assumptions):
+        if self.collecting:
+            raise Inconclusive("data-dependent branch while collecting a straight-line lemma")
         t0 = time.perf_counter()
         r = self.s.check(*assumptions)
         self.stats['solver_s'] += time.perf_counter()-t0
@@ -691,6 +693,10 @@ class Explorer:
         return self.choice(name, [False, True])
 
     def assume(self, cond):
+        if self.collecting:
+            if isinstance(cond, _Sym): self.s.add(_bterm(cond))
+            elif not cond: raise _Abort()
+            return
         if isinstance(cond, _Sym):
             self._add(_bterm(cond))
             if not self._check(): raise _Abort()
@@ -705,6 +711,8 @@ class Explorer:
         `model`: explicit witness values (used when the harness itself knows a distinguishing input)."""
         self.stats['checks'] += 1
         self.reached_flag = True
+        if self.collecting:
+            self.goals.append((what, _bterm(cond) if isinstance(cond,_Sym) else z3.BoolVal(bool(cond)))); return
         if isinstance(cond, _Sym):
             t = z3.simplify(_bterm(cond))
             if z3.is_true(t): return
@@ -768,6 +776,8 @@ class Explorer:
                     self.stats['aborted'] += 1
                     if self.reached_flag:
                         self.stats['paths'] += 1; self.stats['reached'] += 1
+                except Inconclusive:
+                    raise
                 except Violation as v:
                     self.stats['paths'] += 1; self.stats['reached'] += 1
                     self.violations.append(dict(what=v.what, model=v.model or self._model(),
@@ -807,6 +817,29 @@ class Explorer:
         finally:
             EX = prev
         return self
+
+def collect(harness):
+    """Lemma mode: run straight-line `harness(sym)` once on proxies WITHOUT solving; returns
+    (assumptions, goals[(what, z3 bool)], vars). Any data-dependent branch aborts (Inconclusive)."""
+    global EX
+    ex = Explorer()
+    ex.collecting = True; ex.goals = []
+    ex.trace = []; ex.pos = 0; ex.choices = {}; ex.info = {}; ex.vars = {}; ex.reached_flag = False; ex.fpos = 0
+    prev, EX = EX, ex
+    try:
+        harness(ex)
+    finally:
+        EX = prev
+    return list(ex.s.assertions()), ex.goals, dict(ex.vars)
+
+def to_smt2(assertions, negated_goal, logic='QF_FP'):
+    s = z3.Solver()
+    for a in assertions: s.add(a)
+    s.add(z3.Not(negated_goal))
+    txt = s.to_smt2()
+    txt = re.sub(r'\(set-info[^\n]*\n', '', txt)
+    txt = txt.replace('(check-sat)', '')
+    return f"(set-logic {logic})\n" + txt
 
 def discover_prefixes(harness, target=16, max_depth=12):
     """Split the exploration of `harness` into independent sub-trees: returns a list of forced
